@@ -830,7 +830,10 @@ class Program:
             if lf is not None:
                 return lf
             b = self.by_path.get(b.parent) if b.parent else None
-        return None
+        # a body nested in a non-fn item (static / const / thread_local! initialiser)
+        lf = LogicalFn(body.path, body, body)
+        self.body_fn[body.path] = lf
+        return lf
 
     def fn_bodies(self, lf):
         """All bodies making up a logical fn: code body + nested closures (not nested fns)."""
@@ -941,6 +944,10 @@ class Program:
             else:
                 return None
         return out
+
+    def resolve_pl(self, body, place, level=IDENT):
+        """Lifted resolution of a Place at its own use site."""
+        return self.resolve_lifted(body, place.local, norm_path(place), level, at=place.blk)
 
     def resolve_op(self, body, op, level=IDENT, blk=None):
         """Resolve an operand used in block `blk` (None: flow-insensitive)."""
